@@ -26,10 +26,11 @@ static int n_track[4]; static uint64_t tr_ptr[4], tr_cnt[4], tr_size[4], tr_al[4
 static uint64_t owner_of_ptr;              /* which leaf served the live allocation */
 static uint64_t next_ptr = HEAP_BASE + 0x80;
 
+static int constructed;          /* the lock discipline applies to the forwarding members, not to the constructor (which may query max_alignment() in assertion builds) */
 static void leaf_enter(void)
 {
 #ifdef EXPECT_MUTEX
-    ASSERT(mutex_held == 1, "C13: the wrapped allocator runs only while the mutex is held");
+    if (constructed) ASSERT(mutex_held == 1, "C13: the wrapped allocator runs only while the mutex is held");
 #endif
 }
 uint64_t verif_leaf_alloc(uint64_t id, uint64_t kind, uint64_t count, uint64_t size, uint64_t align)
@@ -77,6 +78,7 @@ void harness(void)
     { uint64_t k = nondet_u8(); ASSUME(k <= 6); arg = UINT64_C(1) << k; }
 #endif
     WF(ctor)(O, LEAF, arg);
+    constructed = 1;
     uint64_t size = nondet_u16(), count = nondet_u8(), k = nondet_u8();
     ASSUME(size >= 1 && count >= 1 && count <= 8 && k <= 6);
     uint64_t al = UINT64_C(1) << k;
